@@ -607,11 +607,7 @@ def gen_go(scn):
                 out.append("\tW%d %s `%s`" % (k, go_field_type(sid, p, scn["types"]), tag_of(p, name_key(sid, ti, k))))
         for k, cp in enumerate(t["cfields"]):
             key = "k%d_%d_%d" % (sid, ti, k)
-            opt = "" if cp["required"] else ",required=false"
-            if cp["prefix"]:
-                out.append('\tV%d string `prefix:"%s%s"`' % (k, key, opt))
-            else:
-                out.append('\tV%d string `value:"${%s}%s"`' % (k, key, opt))
+            out.append("\tV%d string `%s`" % (k, cfield_tag(cp, key, (sid * 7 + ti * 3 + k) % 6)))
         out.append("}")
         out.append("func (t *%s) WxBase() *wx.Base { return &t.b }" % tn)
         out.append("type P%s struct {\n\t*%s\n\tPid int\n}" % (tn, tn))
@@ -651,6 +647,23 @@ def regname_of(scn, ci):
     if f and not c["name"]:
         return "%s/%s" % (f[1], f[2])
     return c["name"] if c["name"] else "%s/%s" % (PKG, go_type_name(scn["id"], c["type"]))
+
+
+def cfield_tag(cp, key, dflt_variant):
+    """the tag of a configuration point.  The model knows a point by (prefix | value, required, satisfiable); the tag
+    spells that in one of six ways (kept in the scenario as cp["tagv"]): the value route also as the prop shorthand, and
+    the Required argument alone, last, first or in the middle of further arguments that are harmless on a string field
+    (custom ones, validate=omitempty ..., mapper=json) - an optional point never fails, whatever else its tag carries"""
+    v = cp.setdefault("tagv", dflt_variant)
+    opt = "" if cp["required"] else ",required=false"
+    if cp["prefix"]:
+        return 'prefix:"%s%s"' % (key, [opt, opt, ",x=1" + opt, opt + ",note=a b", ",x=1" + opt + ",y=2", opt][v])
+    return ['value:"${%s}%s"' % (key, opt),
+            'prop:"%s%s"' % (key, opt),
+            'prop:"%s,x=1%s"' % (key, opt),
+            'prop:"%s%s,note=a b"' % (key, opt),
+            'value:"${%s},validate=omitempty%s,x=1"' % (key, opt),
+            'prop:"%s,validate=omitempty min=1%s,mapper=json"' % (key, opt)][v]
 
 
 def config_yaml(scn):
